@@ -582,3 +582,16 @@ def origin_of(fn, e, depth=5):
         e = defs[0].value
         seen += 1
     return e
+
+
+def guarded_take(ctx, rule, f, site, container, instance, errors=("IndexError", "LookupError")):
+    """a positional take from `container` happens only when it is non-empty: either the emptiness was tested (LBYL: the fact holds
+    at the site) or the take stands in a `try` whose handlers catch the lookup error it raises on an empty container (EAFP)"""
+    from sa.engine.cfg import handler_names
+    st = stmt_of(site)
+    prev, cur = st, getattr(st, "_parent", None)
+    while cur is not None and cur is not f.node:
+        if isinstance(cur, ast.Try) and prev in cur.body and any(set(handler_names(h)) & set(errors) for h in cur.handlers):
+            return ctx.ob(rule, f, instance, True, node=st, by=("EAFP: " + "/".join(errors) + " handler",))
+        prev, cur = cur, getattr(cur, "_parent", None)
+    return ctx.require_at(rule, f, site, [[container]], instance=instance)
